@@ -222,9 +222,94 @@ def _slot_shape_vacuity(cases):
             "legend": "G signed in position, W a signature that does not belong there, E empty (zero bytes)"}
 
 
+NON_LAST = ("first-only", "middle-only", "several-not-last")      # two keys of one length that agree in their LAST member
+
+
+def _identity_vacuity(eqs, bykeys):
+    """Sigs.tla parts 5 and 6 must be in the output: key pairs of every difference class (in particular pairs that
+    differ ONLY in a member that is not the last one, flat and nested), and by-key assemblies for sibling
+    multisignature members sharing their last, their first and no member."""
+    if not eqs or not bykeys:
+        raise common.ToolError("Sigs: the key-identity table (eqtable) or the by-key assembly table (bykey) was not printed")
+    have = {(e["diff"], bool(e["nested"])) for e in eqs}
+    need = {(d, n) for d in ("same", "length", "first-only", "middle-only", "last-only", "permuted", "kind") for n in (False, True)}
+    need |= {("simple", False), ("several-not-last", False)}
+    if need - have:
+        raise common.ToolError("Sigs: the key-identity table lacks pairs of class %s (vacuity)" % sorted(need - have))
+    if not any(e["diff"] in NON_LAST and not e["equal"] for e in eqs):
+        raise common.ToolError("Sigs: no pair of keys differing only in a non-last member (vacuity)")
+    if any(e["equal"] != (e["diff"] == "same") for e in eqs):
+        raise common.ToolError("Sigs: the specification's KeyEquals is not structural identity")
+    sib = {b["siblings"] for b in bykeys if b["index_order"]}
+    if not (sib & set(NON_LAST)) or "last-only" not in sib or "several" not in sib or "flat" not in sib:
+        raise common.ToolError("Sigs: by-key assembly lacks sibling multisignature members sharing their last / first / no member, or the flat control: %s" % sorted(sib))
+    if not all(b["verifies"] for b in bykeys if b["index_order"]):
+        raise common.ToolError("Sigs: the specification's by-key assembly in index order does not verify")
+
+
+def _compare_identity(eqs, eq_resp, bykeys, bk_resp, seed, find, notes):
+    """Equals must be true exactly for identical keys; signatures added BY KEY in index order must give a multisignature
+    that verifies. A panic of Equals where it is asked to compare keys of different TYPES (a single key with a
+    multisignature key, an ed25519 with a secp256k1 key: unchecked type assertion in the unchanged code) is recorded as
+    an observation, never compared; everything else is."""
+    ncmp = 0
+    xtype = {}
+    for e, r in zip(eqs, eq_resp):
+        for inst, got in sorted(r["r"].items()):
+            ncmp += 1
+            want = "T" if e["equal"] else "F"
+            if got == want:
+                continue
+            if got.startswith("panic") and "interface conversion" in got and (e["simple_vs_multi"] or inst == "mixed"):
+                k = "Equals(%s): %s" % ("single key, multisignature key" if e["simple_vs_multi"] else "keys of different curves (possibly nested)", got[:160])
+                xtype[k] = xtype.get(k, 0) + 1
+                continue
+            if got == "T":
+                sig, what = "key-equals-true-for-different-keys", "Equals is true for two DIFFERENT keys (difference: %s)" % e["diff"]
+            elif got == "F":
+                sig, what = "key-equals-false-for-the-same-key", "Equals is false for two identical keys"
+            else:
+                sig, what = "key-equals-panics", "Equals panics"
+            find.add(sig, "Equals", inst, what, {"keys": inst, "a": e["a"], "b": e["b"], "difference": e["diff"], "spec": e["equal"], "real": got},
+                     {"driver": "cryptodrv", "args": ["sigs", "-seed", str(seed)],
+                      "stdin": [json.dumps({"i": 0, "eq": [e["a"], e["b"]]}, separators=(",", ":"))], "expected": {inst: want}})
+    bnotes = {}
+    nprop = 0
+    for b, r in zip(bykeys, bk_resp):
+        for inst, got in sorted(r["r"].items()):
+            ncmp += 1
+            want = "T" if b["verifies"] else "F"
+            n = (r.get("n") or {}).get(inst)
+            if got.startswith("panic") and "interface conversion" in got and (b["simple_after_multi"] or inst == "mixed"):
+                k = "AddSignature by key (%s): %s" % ("a single key listed after a multisignature key" if b["simple_after_multi"] else "key list of mixed curves", got[:160])
+                xtype[k] = xtype.get(k, 0) + 1
+                continue
+            if b["index_order"]:
+                nprop += 1
+                if got != "T" or n != b["nsigs"]:
+                    find.add("multisig-assembled-by-key-does-not-verify", "AddSignature", inst,
+                             "every listed key signed and every signature was added under its own key with AddSignature (index order), yet the "
+                             "multisignature %s (sibling members: %s)" % ("does not verify" if got == "F" else "has %s components for %d keys / %s" % (n, b["nsigs"], got), b["siblings"]),
+                             {"keys": inst, "key": b["key"], "order": b["order"], "siblings": b["siblings"], "components": n, "spec_components": b["nsigs"], "real": got},
+                             {"driver": "cryptodrv", "args": ["sigs", "-seed", str(seed)],
+                              "stdin": [json.dumps({"i": 0, "bykey": b["key"], "order": b["order"]}, separators=(",", ":"))], "expected": {inst: "T"}})
+            elif got != want or n != b["nsigs"]:
+                k = "order %s of %s: model %s/%d, real %s/%s" % (b["order"], json.dumps(b["key"]), want, b["nsigs"], got[:60], n)
+                bnotes[k] = bnotes.get(k, 0) + 1
+    if nprop == 0:
+        raise common.ToolError("Sigs: no by-key assembly in index order was executed")
+    notes["key_identity"] = {
+        "pairs": len(eqs), "pairs_differing_only_in_a_non_last_member": sum(1 for e in eqs if e["diff"] in NON_LAST),
+        "by_key_assemblies": len(bykeys), "by_key_in_index_order_required_to_verify": nprop,
+        "other_orders_not_conforming_to_the_transcription": bnotes,
+        "observation_cross_type_equals_panics": xtype}
+    return ncmp
+
+
 def _run_sigs(d, tier, seed, out, find, notes):
     cfg = TIERS[tier]
     cases, builds, seen = [], [], set()
+    eqs, bykeys = [], []
     for sc in cfg["sigs"]:
         res = _tlc("Sigs", sc, d, "Sigs", cfg["tlc_timeout"], coverage=(tier == "quick"))
         common.require_tlc_ok(res, "Sigs " + sc)
@@ -232,6 +317,10 @@ def _run_sigs(d, tier, seed, out, find, notes):
         for c in _json_lines(res.out):
             if "build" in c:
                 builds = c["build"]
+            elif "eqtable" in c:
+                eqs = c["eqtable"]
+            elif "bykey" in c:
+                bykeys = c["bykey"]
             else:
                 k = json.dumps([c["key"], c["sig"]])
                 if k not in seen:      # the configurations overlap: every case is run once
@@ -245,6 +334,13 @@ def _run_sigs(d, tier, seed, out, find, notes):
     slot_stats = _slot_shape_vacuity(cases)
     reqs = [{"i": i, "key": c["key"], "sig": c["sig"]} for i, c in enumerate(cases)]
     reqs += [{"i": len(cases) + j, "build": b["order"]} for j, b in enumerate(builds)]
+    _identity_vacuity(eqs, bykeys)
+    eqs = sorted(eqs, key=lambda e: json.dumps([e["a"], e["b"]]))
+    bykeys = sorted(bykeys, key=lambda e: json.dumps([e["key"], e["order"]]))
+    base_eq = len(reqs)
+    reqs += [{"i": base_eq + j, "eq": [e["a"], e["b"]]} for j, e in enumerate(eqs)]
+    base_bk = len(reqs)
+    reqs += [{"i": base_bk + j, "bykey": e["key"], "order": e["order"]} for j, e in enumerate(bykeys)]
     stdin = "\n".join(json.dumps(r, separators=(",", ":")) for r in reqs) + "\n"
     p = common.run_driver("cryptodrv", ["sigs", "-seed", str(seed)], stdin=stdin, timeout=3000)
     if p.returncode != 0:
@@ -288,6 +384,7 @@ def _run_sigs(d, tier, seed, out, find, notes):
                        "early, so only adding in index order yields a multisignature that verifies (not part of C19's text: "
                        "'verifies only when ...'; reported as an observation)",
         "samples": bnotes[:4]}
+    ncmp += _compare_identity(eqs, resp[base_eq:base_bk], bykeys, resp[base_bk:], seed, find, notes)
     notes["sig_cases"] = len(cases)
     notes["sig_cases_accepted_by_spec"] = accepted
     notes["sig_case_classes"] = dict(sorted(classes.items()))
